@@ -53,6 +53,8 @@ func checkC16(rep *core.Report) {
 	r2 := rep.Rule("R16.2", "mirror buffers: own copy from the protocol's own pool, released once after last use, with the pool's size", 8)
 	r3 := rep.Rule("R16.3", "rewritten header fields come from the right quantities at the right offsets", 24)
 	r4 := rep.Rule("R16.4", "the mirror branch of the worker only copies and queues", 2)
+	r5 := rep.Rule("R16.5", "a datagram queue is closed only by its single sending function (never under the workers that still send on it)", 4)
+	checkQueueClosers(prog, r5)
 	loops, disps := mirrorLoops(prog)
 	if len(loops) < 2 {
 		r1.Undecided("anchors", token.NoPos, fmt.Sprintf("%d mirror loops found, want 2", len(loops)))
@@ -626,5 +628,74 @@ func checkMirrorHelpers(prog *core.Program, r3 *core.RuleRun) {
 				r3.Check(v == want, "mirror."+name, token.NoPos, fmt.Sprint(want), fmt.Sprintf("header length constant %s is %d", name, v))
 			}
 		}
+	}
+}
+
+
+// checkQueueClosers (R16.5): a send on a closed channel panics, also inside a select with a default case. The
+// receive-to-worker queues are closed by the receive loop, which is their only sender; the mirror queues are sent on
+// by every worker and are therefore closed by no one (a worker that is still draining its backlog at shutdown would
+// panic on its next mirror hand-off and take the collector down).
+func checkQueueClosers(prog *core.Program, rr *core.RuleRun) {
+	senders := map[*ssa.Global]map[*ssa.Function]bool{}
+	closers := map[*ssa.Global][]ssa.Instruction{}
+	note := func(g *ssa.Global, fn *ssa.Function) {
+		if senders[g] == nil {
+			senders[g] = map[*ssa.Function]bool{}
+		}
+		senders[g][fn] = true
+	}
+	for _, fn := range prog.RepoFuncs() {
+		if core.PkgRel(fn) != "vflow" {
+			continue
+		}
+		allInstrs(fn, func(ins ssa.Instruction) {
+			switch x := ins.(type) {
+			case *ssa.Send:
+				if g := globalOf(x.Chan); g != nil && isUDPChan(x.Chan) {
+					note(g, fn)
+				}
+			case *ssa.Select:
+				for _, st := range x.States {
+					if st.Dir == types.SendOnly {
+						if g := globalOf(st.Chan); g != nil && isUDPChan(st.Chan) {
+							note(g, fn)
+						}
+					}
+				}
+			case ssa.CallInstruction:
+				if b, ok := x.Common().Value.(*ssa.Builtin); ok && b.Name() == "close" && len(x.Common().Args) == 1 {
+					if g := globalOf(x.Common().Args[0]); g != nil && isUDPChan(x.Common().Args[0]) {
+						closers[g] = append(closers[g], ins)
+					}
+				}
+			}
+		})
+	}
+	var gs []*ssa.Global
+	for g := range senders {
+		gs = append(gs, g)
+	}
+	sort.Slice(gs, func(i, j int) bool { return gs[i].Name() < gs[j].Name() })
+	for _, g := range gs {
+		key := "queue:" + g.Name() + ":closed-by-its-only-sender"
+		if len(closers[g]) == 0 {
+			rr.OK(key, g.Pos(), "never closed")
+			continue
+		}
+		for _, c := range closers[g] {
+			cf := c.Parent()
+			bad := ""
+			for sf := range senders[g] {
+				// a closure of the closing function counts as that function
+				if sf != cf && sf.Parent() != cf {
+					bad = core.FuncName(sf)
+				}
+			}
+			rr.Check(bad == "", key, c.Pos(), "closed by "+core.FuncName(cf)+", its only sender", core.FuncName(cf)+" closes "+g.Name()+" although "+bad+" sends on it: a sender that is still running when the queue is closed panics (send on closed channel), which takes the collector down while it drains its backlog at shutdown")
+		}
+	}
+	if len(gs) == 0 {
+		rr.Undecided("queues", token.NoPos, "no package-level datagram queue with a sender found")
 	}
 }
